@@ -51,7 +51,7 @@ func (g *GTPv2) DecodeFromBytes(data []byte, df gopacket.DecodeFeedback) error {
 		return fmt.Errorf("GTP packet too small: %d bytes", dLen)
 	}
 
-	cIndex := uint16(hLen)
+	cIndex := hLen
 	if g.TEIDflag {
 		hLen += 4
 		cIndex += 4
@@ -61,7 +61,7 @@ func (g *GTPv2) DecodeFromBytes(data []byte, df gopacket.DecodeFeedback) error {
 		g.TEID = binary.BigEndian.Uint32(data[4:8])
 	}
 
-	if len(data) < int(cIndex)+3 {
+	if len(data) < cIndex+4 {
 		return fmt.Errorf("GTP packet too small for SequenceNumber: %d bytes", len(data))
 	}
 	g.SequenceNumber = uint32(data[cIndex])<<16 | uint32(data[cIndex+1])<<8 | uint32(data[cIndex+2])
@@ -69,15 +69,18 @@ func (g *GTPv2) DecodeFromBytes(data []byte, df gopacket.DecodeFeedback) error {
 	hLen += 4
 	cIndex += 4
 
-	for cIndex < uint16(dLen) {
+	for cIndex < dLen {
+		if dLen < cIndex+4 {
+			return fmt.Errorf("GTP packet too small for IE header: %d bytes", dLen)
+		}
 		ieType := data[cIndex]
-		ieLength := binary.BigEndian.Uint16(data[cIndex+1 : cIndex+3])
-		if cIndex+4+uint16(ieLength) > uint16(dLen) {
+		ieLength := int(binary.BigEndian.Uint16(data[cIndex+1 : cIndex+3]))
+		if cIndex+4+ieLength > dLen {
 			return fmt.Errorf("IE %d exceeds packet length", ieType)
 		}
-		ieContent := data[cIndex+4 : cIndex+4+uint16(ieLength)]
+		ieContent := data[cIndex+4 : cIndex+4+ieLength]
 		g.IEs = append(g.IEs, IE{Type: ieType, Content: ieContent})
-		cIndex += 4 + uint16(ieLength)
+		cIndex += 4 + ieLength
 	}
 
 	g.BaseLayer = BaseLayer{Contents: data[:cIndex], Payload: data[cIndex:]}
